@@ -119,6 +119,40 @@ _FRESH_METHODS = {"astype", "copy", "sum", "mean", "max", "min", "any", "all", "
                   "endswith", "format", "count", "index", "keys", "values", "items", "get"}
 
 
+_SCALAR_BUILTINS = {"min", "max", "int", "len", "float", "round", "abs", "bool", "str", "slice", "range", "isinstance", "divmod", "repr", "format"}
+
+
+def _immutable_value(e: ast.AST) -> bool:
+    """The expression evaluates to an immutable object (number, string, bool, slice, tuple of those) whatever its operands
+    are: duplicating its evaluation cannot be observed through object identity."""
+    if isinstance(e, ast.Constant):
+        return True
+    if isinstance(e, ast.Call) and isinstance(e.func, ast.Name) and e.func.id in _SCALAR_BUILTINS:
+        return True
+    if isinstance(e, (ast.Compare, ast.JoinedStr)):
+        return all(not isinstance(x, ast.Call) or _immutable_value(x) or True for x in [e]) and not any(isinstance(n, ast.Subscript) for n in [e]) and _scalar_operands(e)
+    if isinstance(e, ast.Attribute) and e.attr in ("size", "ndim", "dtype", "shape", "nbytes", "itemsize", "name", "suffix", "stem"):
+        return True
+    if isinstance(e, ast.Subscript) and isinstance(e.value, ast.Attribute) and e.value.attr == "shape":
+        return True
+    if isinstance(e, ast.BinOp):
+        return _immutable_value(e.left) and _immutable_value(e.right)
+    if isinstance(e, ast.UnaryOp):
+        return _immutable_value(e.operand)
+    if isinstance(e, ast.Tuple):
+        return all(_immutable_value(x) for x in e.elts)
+    if isinstance(e, ast.IfExp):
+        return _immutable_value(e.body) and _immutable_value(e.orelse)
+    return False
+
+
+def _scalar_operands(e: ast.AST) -> bool:
+    # a comparison of arrays yields an array (fresh, but mutable): only comparisons of immutable values are immutable
+    if isinstance(e, ast.Compare):
+        return _immutable_value(e.left) and all(_immutable_value(c) for c in e.comparators)
+    return True
+
+
 def _root_name(f: ast.AST) -> Optional[str]:
     while isinstance(f, ast.Attribute):
         f = f.value
@@ -228,6 +262,19 @@ def _effects_between(fn_node, def_stmt: ast.stmt, use_nodes, operands) -> bool:
                 if not pure and any(touches(a) for a in list(c.args) + [k.value for k in c.keywords]):
                     return True
     return False
+
+
+def _heads(st: ast.stmt) -> List[ast.AST]:
+    """The expressions a statement evaluates itself (not the statements nested in it)."""
+    out = []
+    for fld, val in ast.iter_fields(st):
+        if fld in ("body", "orelse", "finalbody", "handlers"):
+            continue
+        if isinstance(val, ast.AST):
+            out.append(val)
+        elif isinstance(val, list):
+            out += [x for x in val if isinstance(x, ast.AST)]
+    return out
 
 
 def _only_iterated(fn_node, v: str) -> bool:
@@ -348,7 +395,8 @@ def inline_new_helpers(repo, max_rounds: int = 3) -> List[str]:
     done: List[str] = []
     for _ in range(max_rounds):
         # a decorated function (memoised, jitted, property ..) is not its body: never inlined
-        new_fns = {q: fi for q, fi in repo.functions.items() if q not in known and isinstance(fi.node, ast.FunctionDef) and not fi.node.decorator_list}
+        new_fns = {q: fi for q, fi in repo.functions.items() if q not in known and isinstance(fi.node, ast.FunctionDef)
+                   and all(isinstance(d, ast.Name) and d.id == "staticmethod" for d in fi.node.decorator_list)}
         if not new_fns:
             break
         changed = False
@@ -446,10 +494,33 @@ def _prepare_body(caller_fi, call: ast.Call, callee_fi, st=None):
                 rename[p] = tmp
         else:
             subst[p] = arg
-    for loc in callee_locals:
+    # free names of the callee must mean the same thing at the call site (no capture by a caller local)
+    params_all = {a.arg for a in callee.args.posonlyargs + callee.args.args + callee.args.kwonlyargs}
+    free = {n.id for s2 in callee.body for n in ast.walk(s2) if isinstance(n, ast.Name) and isinstance(n.ctx, ast.Load)} - callee_locals - params_all
+    nested_sibling = callee_fi.parent is not None and (caller_fi.parent is callee_fi.parent or caller_fi is callee_fi.parent)
+    captured = free & caller_names
+    if captured and not nested_sibling:
+        return None
+    if nested_sibling and caller_fi is not callee_fi.parent and (free & (caller_names - bound_names(callee_fi.parent.node))):
+        return None
+    st_targets = {n.id for t in st.targets for n in ast.walk(t) if isinstance(n, ast.Name) and isinstance(n.ctx, ast.Store)} if isinstance(st, ast.Assign) else set()
+    arg_names = {n.id for a2 in binding.values() for n in ast.walk(a2) if isinstance(n, ast.Name)}
+    for loc in sorted(callee_locals):
         if loc in caller_names and loc not in binding:
-            # same spelling in caller and callee: keep it when the callee result is assigned back to that very name, else rename
-            rename.setdefault(loc, loc)
+            # same spelling in caller and callee: kept when the caller's variable is overwritten by the call statement or dead
+            # after it (and no argument mentions it), else the callee's local is renamed
+            harmless = loc not in arg_names and (loc in st_targets or (st is not None and not _live_after(caller_fi.node, st, loc)))
+            if not harmless:
+                rename[loc] = f"{loc}__h"
+    # an argument substituted textually must not mention a name the inlined body assigns
+    assigned_after = {rename.get(x, x) for x in (callee_locals | assigned_params)}
+    for p2 in list(subst):
+        if any(isinstance(n, ast.Name) and n.id in assigned_after for n in ast.walk(subst[p2])):
+            arg = subst.pop(p2)
+            tmp = p2 if p2 not in caller_names else f"{p2}__h"
+            pre.append(ast.copy_location(ast.Assign(targets=[ast.Name(id=tmp, ctx=ast.Store())], value=copy.deepcopy(arg)), call))
+            if tmp != p2:
+                rename[p2] = tmp
     body = [_Subst(subst).visit(s) for s in body]
     real_rename = {k: v for k, v in rename.items() if k != v}
     if real_rename:
@@ -647,6 +718,12 @@ def canonical_dict_loops(fn_node) -> int:
         stores = [x for b in s.body + s.orelse for x in ast.walk(b) if isinstance(x, ast.Name) and x.id == vname and isinstance(x.ctx, ast.Store)]
         if stores:
             continue
+        dtext = ast.unparse(D)
+        rebinds = [x for b in s.body + s.orelse for x in ast.walk(b) if isinstance(x, ast.Subscript) and isinstance(x.ctx, (ast.Store, ast.Del))
+                   and ast.unparse(x.value) == dtext]
+        if rebinds or any(isinstance(x, ast.Call) and isinstance(x.func, ast.Attribute) and ast.unparse(x.func.value) == dtext
+                          and x.func.attr in ("pop", "update", "clear", "setdefault", "popitem") for b in s.body + s.orelse for x in ast.walk(b)):
+            continue  # the loop replaces entries of the dict: `v` and `D[k]` would no longer be the same object
         elt = ast.Subscript(value=copy.deepcopy(D), slice=ast.Name(id=kname, ctx=ast.Load()), ctx=ast.Load())
         sub = _Subst({vname: elt})
         s.body = [sub.visit(b) for b in s.body]
@@ -665,7 +742,7 @@ def canonical_dict_loops(fn_node) -> int:
 
 
 # ------------------------------------------------------------------------------------------------ pass 3
-def inline_new_locals(qualname: str, fn_node, max_rounds: int = 60) -> List[str]:
+def inline_new_locals(qualname: str, fn_node, max_rounds: int = 60, on_change=None) -> List[str]:
     """Substitute single-definition pure temporaries that the pinned function does not have."""
     from .cfg import CFG
     from .defuse import DefUse
@@ -709,6 +786,28 @@ def inline_new_locals(qualname: str, fn_node, max_rounds: int = 60) -> List[str]
                     if nm in ("sort", "fill", "resize", "pop", "append", "extend", "update", "close", "seek", "write", "tofile") and isinstance(f, ast.Attribute) \
                             and isinstance(f.value, ast.Name):
                         mutated.add(f.value.id)
+        odd_defs = set()
+        for s in stmts:
+            tl = []
+            if isinstance(s, (ast.For, ast.AsyncFor)):
+                tl = [s.target]
+            elif isinstance(s, (ast.With, ast.AsyncWith)):
+                tl = [i.optional_vars for i in s.items if i.optional_vars is not None]
+            elif isinstance(s, (ast.AugAssign, ast.AnnAssign)):
+                tl = [s.target]
+            elif isinstance(s, ast.Delete):
+                tl = s.targets
+            elif isinstance(s, ast.Assign):
+                tl = [t for t in s.targets if not isinstance(t, ast.Name)] if len(s.targets) == 1 else s.targets
+            elif isinstance(s, (ast.Import, ast.ImportFrom)):
+                odd_defs |= {(a.asname or a.name).split(".")[0] for a in s.names}
+            elif isinstance(s, ast.Try):
+                odd_defs |= {h.name for h in s.handlers if h.name}
+            for t in tl:
+                odd_defs |= {n.id for n in ast.walk(t) if isinstance(n, ast.Name) and isinstance(n.ctx, (ast.Store, ast.Del))}
+            for n in _walk_no_nested(s) if not isinstance(s, (ast.FunctionDef, ast.ClassDef)) else []:
+                if isinstance(n, ast.NamedExpr) and isinstance(n.target, ast.Name):
+                    odd_defs.add(n.target.id)
         closure_reads = set()
         for s in stmts:
             for n in ast.walk(s):
@@ -721,7 +820,7 @@ def inline_new_locals(qualname: str, fn_node, max_rounds: int = 60) -> List[str]
             if not (isinstance(s, ast.Assign) and len(s.targets) == 1 and isinstance(s.targets[0], ast.Name)):
                 continue
             v = s.targets[0].id
-            if v in known or v in params or store_count.get(v, 0) != 1 or v in closure_reads:
+            if v in known or v in params or v in closure_reads or v in odd_defs:
                 continue
             if v in mutated and not _is_path(s.value):  # an alias of a plain access path may be written through
                 continue
@@ -734,12 +833,21 @@ def inline_new_locals(qualname: str, fn_node, max_rounds: int = 60) -> List[str]
             dn = cfg.node_for(s)
             uses = []
             ok = True
+            this_def = [d for d in du.defs if d.var == v and d.stmt is s and d.kind == "assign"]
+            if len(this_def) != 1:
+                continue
             for n2 in cfg.nodes:
                 for nm, node in du.loads_in(n2):
                     if nm == v or nm.startswith(v + "[") or nm.startswith(v + "."):
+                        rd = {d.idx for d in du.reaching_at(n2, v)}
+                        if this_def[0].idx not in rd:
+                            continue  # another definition of the same temporary is read there
+                        if rd != {this_def[0].idx}:
+                            ok = False  # merged with another definition: not a plain temporary
                         uses.append((n2, node))
-            if not uses:
+            if not uses or not ok:
                 continue
+            use_stmts = {id(n2.stmt) for n2, _ in uses}
             operand_names = {n.id for n in ast.walk(s.value) if isinstance(n, ast.Name)}
             # locations (attribute / subscript chains) read by the value must not be stored to anywhere in the function
             reads = {ast.unparse(n) for n in ast.walk(s.value) if isinstance(n, (ast.Attribute, ast.Subscript))}
@@ -757,8 +865,9 @@ def inline_new_locals(qualname: str, fn_node, max_rounds: int = 60) -> List[str]
                 continue
             # object identity: a value that is not a plain access path is a new object at every evaluation; it may be
             # duplicated only into contexts that neither keep a reference to it nor modify it
-            name_uses = [n for st2 in fn_node.body for n in ast.walk(st2) if isinstance(n, ast.Name) and n.id == v and isinstance(n.ctx, ast.Load)]
-            if not _is_path(s.value) and len(name_uses) > 1:
+            name_uses = [n for st2 in stmts if id(st2) in use_stmts for h in _heads(st2) for n in ast.walk(h)
+                         if isinstance(n, ast.Name) and n.id == v and isinstance(n.ctx, ast.Load)]
+            if not _is_path(s.value) and not _immutable_value(s.value) and len(name_uses) > 1:
                 parents = {}
                 for st2 in fn_node.body:
                     for par in ast.walk(st2):
@@ -781,14 +890,14 @@ def inline_new_locals(qualname: str, fn_node, max_rounds: int = 60) -> List[str]
                 if not ok:
                     break
             if ok:
-                cand = (s, v)
+                cand = (s, v, use_stmts)
                 break
         if cand is None:
             break
-        s, v = cand
+        s, v, use_stmts = cand
         sub = _Subst({v: s.value})
         for st2 in stmts:
-            if st2 is s:
+            if st2 is s or id(st2) not in use_stmts:
                 continue
             # visit fields in place (statement identity must be kept for _replace_stmt)
             for fld, val in ast.iter_fields(st2):
@@ -801,6 +910,10 @@ def inline_new_locals(qualname: str, fn_node, max_rounds: int = 60) -> List[str]
         _replace_stmt(fn_node, s, [])
         ast.fix_missing_locations(fn_node)
         inlined.append(v)
+        if on_change is not None:
+            # the statement a role pattern describes may just have been re-assembled: let role resolution give the variable
+            # its canonical spelling (it is then part of the pinned vocabulary and no longer a candidate)
+            on_change()
     return inlined
 
 
@@ -867,15 +980,46 @@ class _Idioms(ast.NodeTransformer):
     def visit_Call(self, node):
         node = self.generic_visit(node)
         f = node.func
+        if isinstance(f, ast.Attribute) and f.attr == "allclose" and len(node.args) == 2 and isinstance(f.value, ast.Name):
+            # np.allclose(a, b, ..)  ==  np.all(np.isclose(a, b, ..))   (numpy defines it so)
+            self.n += 1
+            inner = ast.Call(func=ast.Attribute(value=f.value, attr="isclose", ctx=ast.Load()), args=node.args, keywords=node.keywords)
+            return ast.copy_location(ast.Call(func=ast.Attribute(value=ast.Name(id=f.value.id, ctx=ast.Load()), attr="all", ctx=ast.Load()),
+                                              args=[ast.copy_location(inner, node)], keywords=[]), node)
         if isinstance(f, ast.Attribute) and f.attr == "flatnonzero" and len(node.args) == 1 and not node.keywords:
             self.n += 1
             w = ast.Call(func=ast.Attribute(value=f.value, attr="where", ctx=ast.Load()), args=node.args, keywords=[])
             return ast.copy_location(ast.Subscript(value=ast.copy_location(w, node), slice=ast.Constant(value=0), ctx=ast.Load()), node)
         return node
 
+    def visit_BinOp(self, node):
+        node = self.generic_visit(node)
+        if isinstance(node.op, ast.MatMult):  # a @ b  ==  np.matmul(a, b)
+            self.n += 1
+            return ast.copy_location(ast.Call(func=ast.Attribute(value=ast.Name(id="np", ctx=ast.Load()), attr="matmul", ctx=ast.Load()),
+                                              args=[node.left, node.right], keywords=[]), node)
+        # (a > b) | (c > d)  ==  np.logical_or(a > b, c > d)   (both operands are boolean arrays / bools)
+        if isinstance(node.op, (ast.BitOr, ast.BitAnd)) and isinstance(node.left, ast.Compare) and isinstance(node.right, ast.Compare):
+            self.n += 1
+            fn = "logical_or" if isinstance(node.op, ast.BitOr) else "logical_and"
+            return ast.copy_location(ast.Call(func=ast.Attribute(value=ast.Name(id="np", ctx=ast.Load()), attr=fn, ctx=ast.Load()),
+                                              args=[node.left, node.right], keywords=[]), node)
+        return node
+
     def visit_Subscript(self, node):
         node = self.generic_visit(node)
         v = node.value
+        # x[:, None]  ==  x[:, np.newaxis]
+        if isinstance(node.slice, ast.Tuple) and any(isinstance(e, ast.Constant) and e.value is None for e in node.slice.elts):
+            self.n += 1
+            node.slice.elts = [ast.copy_location(ast.Attribute(value=ast.Name(id="np", ctx=ast.Load()), attr="newaxis", ctx=ast.Load()), e)
+                               if isinstance(e, ast.Constant) and e.value is None else e for e in node.slice.elts]
+        # x[::-1]  ==  np.flipud(x)   (reversal of the first axis, any number of dimensions)
+        sl = node.slice
+        if isinstance(node.ctx, ast.Load) and isinstance(sl, ast.Slice) and sl.lower is None and sl.upper is None and isinstance(sl.step, ast.UnaryOp) \
+                and isinstance(sl.step.op, ast.USub) and isinstance(sl.step.operand, ast.Constant) and sl.step.operand.value == 1:
+            self.n += 1
+            return ast.copy_location(ast.Call(func=ast.Attribute(value=ast.Name(id="np", ctx=ast.Load()), attr="flipud", ctx=ast.Load()), args=[v], keywords=[]), node)
         if isinstance(v, ast.Call) and isinstance(v.func, ast.Attribute) and v.func.attr == "nonzero" and len(v.args) == 1 and not v.keywords \
                 and isinstance(node.slice, ast.Constant) and node.slice.value == 0 and isinstance(v.func.value, ast.Name):
             self.n += 1
